@@ -258,6 +258,14 @@ def run_prop(ctx, prop, n_quick, n_thorough):
                                 "frames_seen_by_server(index,seq_no,kind,acked)": [[w[0], w[2], w[3], w[4]] for w in s.wire]})
     if not samples:
         samples.append({"note": "no short two-caller schedule in this run", "batches": [b[0] for b in batches]})
+    if ctx.tier == "thorough":
+        with C.Lock("coq"):
+            rc, out = C.sh(["coqchk", "-silent", "-o", "-Q", "theories", "MTV", "MTV.Props.%s" % prop], cwd=C.COQ, timeout=1500)
+        okc = rc == 0 and "Axioms: <none>" in out
+        exhaustive.append("coqchk -o MTV.Props.%s: %s" % (prop, "ok, Axioms: <none>" if okc else "FAILED"))
+        if not okc:
+            C.violation(ctx, "coq:coqchk", "coqchk does not accept Props/%s.vo: %s" % (prop, out[-600:]),
+                        {"no_failing_input": True, "broken_obligation": "coqchk MTV.Props.%s" % prop, "log": out[-2000:]})
     return pr, stats, validated, disagreements, distinct, samples, exhaustive
 
 
@@ -322,8 +330,9 @@ def replay(ctx, prop, path):
         print("status=%s returns=%s" % (s.status, s.rets))
         for a in s.acts[-6:]:
             print("  ", a)
-    # a script recorded on another tree may not be executable on this one: that is "not reproduced"
-    bad = [v for v in ctx.violations if not v[0].startswith("model-disagrees:script-step-not-enabled")]
+    # the replay reproduces iff the SAME finding (stable key) shows up again; a script recorded on another
+    # tree may be cut short or not executable on this one, which is "not reproduced", not a new finding
+    bad = [v for v in ctx.violations if v[0] == obj.get("key")]
     for key, text, _ in bad:
         print("  %s: %s" % (key, text[:300]))
     if bad:
